@@ -37,4 +37,7 @@ Section Replica.
   (* consuming: data of the captured view while its generation is open, a clean failure afterwards *)
   Definition read_next (r : rep) (rd : reader) : option S :=
     if Nat.eqb (rd_gen rd) (r_gen r) then Some (rd_view rd) else None.
+  (* a sequence that was handed out but not started yet (FSM.Lookup(IteratorRequest) returns a lazy sequence) takes
+     its handle when it is consumed, from the replica as it is then (repaired code: currentDB in fsm.go) *)
+  Definition lazy_consume (r_when_consumed : rep) : option S := read_next r_when_consumed (read_start r_when_consumed).
 End Replica.
